@@ -154,10 +154,70 @@ def run_impl(binary, cases):
     return res
 
 
-def run_model(cases, tag="C12"):
-    exprs = [coq_expr(c) for c in cases]
+def run_model(cases, tag="C12", mode="full"):
+    """mode 'full': complete observations (parse_model); mode 'fp': the list of per-operation fingerprints (fp_run)"""
+    exprs = [coq_expr(c) if mode == "full" else "fp_run (%s)" % coq_expr(c) for c in cases]
     vals = lib.coq_eval(tag, PRELUDE, exprs, per_shard=max(20, (len(exprs) + lib.NCPU - 1) // lib.NCPU), timeout=1500)
-    return [parse_model(c, v) for c, v in zip(cases, vals)]
+    if mode == "full":
+        return [parse_model(c, v) for c, v in zip(cases, vals)]
+    return [[list(x) for x in v] for v in vals]
+
+
+M63 = (1 << 63) - 1
+
+
+def _fp(nums):
+    h = 7
+    for v in nums:
+        h = (h * 131105 + v + 1) & M63
+    return h
+
+
+def _tfp(t):
+    h = _fp(t)
+    return ((h ^ (h >> 31)) * 2654435761) & M63
+
+
+def _msfp(ts):
+    a = 0
+    for t in ts:
+        a = (a + _tfp(t)) & M63
+    return a
+
+
+def impl_fp(c, obs):
+    """the fingerprints fp_run computes, from the implementation's observations"""
+    out = []
+    for r in obs:
+        if r[0] == "read":
+            nums = []
+            for dv, tv in zip(r[1]["d"], r[1]["t"]):
+                tt = set(tv[0])
+                nums += [_msfp([t for t in dv[0] if t not in tt]), dv[2], _msfp(tv[0]), _msfp(tv[1]), tv[2]]
+            out.append([0, _fp(nums)])
+        elif r[0] == "e":
+            out.append([1])
+        elif r[0] == "ins":
+            out.append([2, 1 if r[1] else 0])
+        elif r[0] == "hT":
+            out.append([3])
+        elif r[0] == "hD":
+            out.append([4])
+        elif r[0] == "panic":
+            out.append([5, r[1], None])
+    return out
+
+
+def fp_agree(ifp, mfp):
+    if len(ifp) != len(mfp):
+        return False
+    for a, b in zip(ifp, mfp):
+        if a[0] == 5 and b[0] == 5:
+            if a[1] != b[1]:
+                return False
+        elif a != b:
+            return False
+    return True
 
 
 def model_diff(c, iobs, mobs):
@@ -179,7 +239,15 @@ def model_diff(c, iobs, mobs):
         if a[0] == "read":
             names = views_of(c["suite"])
             for ver in ("d", "t"):
-                for name, va, vb in zip(names, a[1][ver], b[1][ver]):
+                for vi, (name, va, vb) in enumerate(zip(names, a[1][ver], b[1][ver])):
+                    if ver == "d":
+                        # class-level self connections of a Delta depend on the hash order in which the pairs of `new`
+                        # were added (TrRelUnionFind::add(x, x) of a new x records (s, s), add(x, y) does not), and they
+                        # surface in ind_0_get / ind_1_get as same-class tuples.  All of them are served by total too,
+                        # so delta views are compared modulo the tuples of the same view of total (keys likewise).
+                        ta, tb = set(a[1]["t"][vi][0]), set(b[1]["t"][vi][0])
+                        va = ([t for t in va[0] if t not in ta], None, va[2])
+                        vb = ([t for t in vb[0] if t not in tb], None, vb[2])
                     if va != vb:
                         part = "tuples" if va[0] != vb[0] else ("keys" if va[1] != vb[1] else "flag")
                         k = 0 if part == "tuples" else (1 if part == "keys" else 2)
@@ -258,7 +326,18 @@ def spec_check(c, obs):
                 dkeys = {k[0] for k in prev["d"][names.index("i0_get")][1]}
                 tkeys = {k[0] for k in prev["t"][names.index("i0_get")][1]}
                 if any(k in tkeys and k not in dkeys for k in round_keys):
+                    # second loop of BinRelToTernary::merge: fresh Total-shaped delta against a non-empty total[k]
                     known = "ternary_resume_assert"
+                elif c["suite"] == "ter":
+                    # first loop: the key was in delta.map, every pair inserted for it in this round joins two elements of
+                    # one class (x == y, or x and y already equivalent) -> the new Delta has only (s, s) connections, the
+                    # trait's is_empty (iter_all().next().is_none()) drops it from delta.map while delta.reverse_map1/2
+                    # list the key -> unwrap() on None in the views [1], [2], [1,2] of delta
+                    old = closure(c, ins_merged)
+                    for k in round_keys:
+                        ps = new_round.get(k, set())
+                        if k in dkeys and ps and all(x == y or ((k, x, y) in old and (k, y, x) in old) for (x, y) in ps):
+                            known = "ternary_dropped_delta_unwrap"
             add(n, "no_panic", None, None, [], known, "panic at operation %d (%s)" % (n, o[0]))
             break
         if o[0] in ("i", "h"):
@@ -300,7 +379,7 @@ def spec_check(c, obs):
 
             def known_rev(tuples, vers):
                 """ternary reverse-map class: the view is exactly the per-key view filtered through the reverse maps"""
-                if fam not in ("i1", "i2", "i12"):
+                if binary or fam not in ("i1", "i2", "i12"):
                     return None
                 base = {"i1": "i01_get", "i2": "i02_get", "i12": "contains"}[fam]
                 for ver in ("d", "t"):
@@ -405,11 +484,10 @@ def gen_history(rng, suite, style=None):
                 x, y = pick_pair(k)
                 ops.append(["i" if (raw or rng.random() < 0.1) else "h", k, x, y])
             ops.append(["m"])
-        # the generated code leaves a stratum only after a merge that moved an empty new
-        if rng.random() < 0.85:
+        # the generated code leaves a stratum only after a merge that moved an empty new (delta is empty then)
+        ops.append(["m"])
+        if rng.random() < 0.3:
             ops.append(["m"])
-            if rng.random() < 0.3:
-                ops.append(["m"])
         ops.append(["e"])
     return dict(suite=suite, D=D, K=K, ops=ops, style=style)
 
